@@ -13,7 +13,7 @@ def h03_add_row(R, C, count, start, at_end, with_default):
     t = make_table(R, C)
     g = plain(R, C)
     a_start = None if at_end else start
-    default = "d" if with_default else None
+    default = with_default if not isinstance(with_default, bool) else ("d" if with_default else None)
     try:
         t.add_row(count, a_start, default)
     except IndexError:
@@ -32,7 +32,7 @@ def h03_add_column(R, C, count, start, at_end, with_default):
     t = make_table(R, C)
     g = plain(R, C)
     a_start = None if at_end else start
-    default = "d" if with_default else None
+    default = with_default if not isinstance(with_default, bool) else ("d" if with_default else None)
     try:
         t.add_column(count, a_start, default)
     except IndexError:
@@ -215,8 +215,11 @@ class NoMerges:
 
 
 class DirtyFlag:
+    def __init__(self):
+        self.marked = 0
+
     def mark_dirty(self):
-        pass
+        self.marked += 1
 
 
 class CloneModel(Cacheable):
@@ -273,14 +276,16 @@ def no_refs(obj):
 PER_TABLE = ["stringTable", "columnHeaders", "styleTable", "formula_table", "format_table_pre_bnc"]
 
 
-def h03_clone(rows1, cols1, rows2, cols2, same_sheet):
+def h03_clone(rows1, cols1, rows2, cols2, same_sheet, hdr=1):
     """two tables added at run time share none of their per-table objects (string list, style list, formula list, format
     list, header buckets, stroke sidecar) - neither with each other nor with the table they were cloned from: an edit
     to one can never show up in the other"""
     assume(1 <= rows1 <= 1000 and 1 <= cols1 <= 1000 and 1 <= rows2 <= 1000 and 1 <= cols2 <= 1000)
     m = CloneModel()
-    a = m.add_table(3, "A", 7, 0.0, 0.0, rows1, cols1)
-    b = m.add_table(3, "B", 7 if same_sheet else a, 0.0, 0.0, rows2, cols2)
+    a = m.add_table(3, "A", 7, 0.0, 0.0, rows1, cols1, hdr, hdr)
+    assert m.name_ref_cache.marked >= 1         # the document has one more table name: what the name cache knows is stale
+    b = m.add_table(3, "B", 7 if same_sheet else a, 0.0, 0.0, rows2, cols2, hdr, hdr)
+    assert m.name_ref_cache.marked >= 2
     assert a != b and a != 7 and b != 7
     ta, tb = m.objects[a], m.objects[b]
     ids_a = [getattr(ta.base_data_store, f)["identifier"] for f in PER_TABLE] + [ta.stroke_sidecar.identifier] + \
@@ -298,10 +303,10 @@ def h03_clone(rows1, cols1, rows2, cols2, same_sheet):
 
 
 HARNESSES = [
-    Harness("H03-add_row", h03_add_row, lambda tier: dict(SH(tier), count=CNT(tier), start=IntDom(), at_end=BoolDom(), with_default=BoolDom()),
-            bounds="start: every Python int or None; count 1..3 (quick) / 1..4 (thorough); default absent/present; shapes {1,2,3} x {1,2} (quick) / {1..4} x {1,2,3} (thorough)", outside=OUT),
-    Harness("H03-add_column", h03_add_column, lambda tier: dict(SH(tier), count=CNT(tier), start=IntDom(), at_end=BoolDom(), with_default=BoolDom()),
-            bounds="start: every Python int or None; count 1..3; default absent/present"),
+    Harness("H03-add_row", h03_add_row, lambda tier: dict(SH(tier), count=CNT(tier), start=IntDom(), at_end=BoolDom(), with_default=Cases([None, "d", 0, ""])),
+            bounds="start: every Python int or None; count 1..3 (quick) / 1..4 (thorough); default absent, a text, the number 0 or the empty text; shapes {1,2,3} x {1,2} (quick) / {1..4} x {1,2,3} (thorough)", outside=OUT),
+    Harness("H03-add_column", h03_add_column, lambda tier: dict(SH(tier), count=CNT(tier), start=IntDom(), at_end=BoolDom(), with_default=Cases([None, "d", 0, ""])),
+            bounds="start: every Python int or None; count 1..3; default absent, a text, the number 0 or the empty text"),
     Harness("H03-delete_row", h03_delete_row, lambda tier: dict(SH(tier), count=CNT(tier), start=IntDom(), at_end=BoolDom()),
             bounds="start: every Python int or None; count 1..3 with the rows present (documented precondition)"),
     Harness("H03-delete_column", h03_delete_column, lambda tier: dict(SH(tier), count=CNT(tier), start=IntDom(), at_end=BoolDom()),
@@ -311,8 +316,9 @@ HARNESSES = [
 ]
 HARNESSES.append(
     Harness("H03-clone", h03_clone,
-            dict(rows1=Cases([1, 3]), cols1=Cases([2]), rows2=Cases([1, 2]), cols2=Cases([2]), same_sheet=BoolDom()),
-            bounds="two consecutive add_table calls (cloning the original table, or the first clone), small concrete shapes",
+            dict(rows1=Cases([1, 3]), cols1=Cases([2]), rows2=Cases([1, 2]), cols2=Cases([2]), same_sheet=BoolDom(), hdr=Cases([0, 1])),
+            bounds="two consecutive add_table calls (cloning the original table, or the first clone), small concrete shapes, with one or "
+                   "no header row / column; each call invalidates the name cache",
             stubs=["object store and every protobuf message = attribute bags; the helpers add_table calls besides create_string_table "
                    "(metadata, drawable, formula owner, uuid map, tile rebuild, caption) are no-op stubs; NumbersUUID = counter"],
             outside=["what the cloned objects contain (protobuf construction)", "add_sheet", "isolation between simultaneously open documents"],
